@@ -34,6 +34,8 @@ RELATED = {
     "C20-m1": ["C20"], "C20-m2": ["C20"],
     "C21-m1": ["C21"], "C21-m2": ["C21"],
     "C22-m1": ["C22"], "C22-m2": ["C22"],
+    "C17-m3": ["C17"], "C22-m3": ["C22"], "C22-m4": ["C22"], "C05-m3": ["C05", "C06"], "C10-m3": ["C10"],
+    "C01-m3": ["C01", "C02", "C04"], "C09-m4": ["C09", "C06"], "C11-m4": ["C11"], "C16-m3": ["C16"], "C16-m4": ["C16", "C21"],
     "F01-stale-retrieve-job": ["C10", "C11"], "F02-delta-excursion": ["C05", "C07"],
     "F03-emit-reservation-deadlock": ["C11", "C13"],
 }
